@@ -60,9 +60,22 @@ def run(rep, tier, seed, proof_ok):
                 "sibling keep, in another module) entered by dds.eval and dds.keep, expected: the error code of the offence, execution "
                 "log, stored blobs and committed paths of plain execution stopping at the offence (or nothing at all), nothing "
                 "committed, dds.load and the data directory unchanged; twins (plain call, user exception for the handler) must give "
-                "result, log, blobs and paths of plain execution (quick: handlers x carriers and handlers x shapes; thorough: full product)"
+                "result, log, blobs and paths of plain execution (quick: handlers x carriers and handlers x shapes; thorough: full product); "
+                "repeated sub-structure sweep: the offending calls in structurally identical or shared sub-trees - two keeps of the SAME "
+                "callee with the SAME arguments (%d callees: argument-free, default, same constant, same keyword, different constants) "
+                "under overlapping paths (shallow first / deep first, one or two segments apart) placed in %d shapes (one function, twin "
+                "functions differing only in the path literal side by side / nested / reached by name / in two modules, sibling methods "
+                "of one accepted class on one instance / two instances / around a harmless third keep of the same callee, twin classes, "
+                "a helper reached twice through twin callers before / after the other keep, twin data functions whose decorators differ only in "
+                "the path literal, a data function kept again under another path), at depth 0 or 1, entered by dds.eval and "
+                "dds.keep, plus %d cycle / nested-eval kinds closed through the same places (helper reached twice, second twin method, "
+                "after a second keep of the same callee, other module), expected: the error code of the offence, nothing executed, no "
+                "store write; the well-formed twins (sibling paths, string-prefix paths) must give the result of plain execution, run "
+                "nothing that plain execution does not run and leave every kept path loadable with the value of plain execution "
+                "(quick: shapes x callees with 2 of 4 ill-formed and 1 of 2 well-formed path pairs; thorough: full product x depth x entry)"
                 ) % (len(__import__("c11_positions").POSITIONS), len(__import__("c11_dynamic").CARRIERS), len(__import__("c11_dynamic").HANDLERS),
-                     len(__import__("c11_dynamic").SHAPES))
+                     len(__import__("c11_dynamic").SHAPES), len(__import__("c11_shared").CALLEES), len(__import__("c11_shared").SHAPES),
+                     len(__import__("c11_shared").GRAPH_KINDS))
     P = all_paths(3)
     cases = [[p] for p in P] + [list(t) for t in itertools.permutations(P, 2)]
     trip = list(itertools.permutations(P, 3))
@@ -112,6 +125,7 @@ def run(rep, tier, seed, proof_ok):
     except ImportError:
         rep.extra["program_part"] = "cycle / nested-eval / full-evaluation part not built yet"
     pp, ps, ds = rep.extra.get("program_part"), rep.extra.get("position_sweep", {}), rep.extra.get("dynamic_sweep", {})
+    ss = rep.extra.get("shared_sweep", {})
     if isinstance(pp, dict):
         rep.extra["input_distribution"].update({"call_graphs": pp["call_graphs"], "call_graphs_with_positions": pp["call_graphs_with_positions"],
                                                 "syntactic_positions": ps.get("positions"), "position_sweep_scenarios": ps.get("scenarios"),
@@ -119,7 +133,11 @@ def run(rep, tier, seed, proof_ok):
                                                 "position_sweep_well_formed_kinds": ps.get("well_formed_kinds"),
                                                 "dynamic_sweep_scenarios": ds.get("scenarios"), "dynamic_sweep_handlers": ds.get("handlers"),
                                                 "dynamic_sweep_carriers": ds.get("carriers"), "dynamic_sweep_shapes": ds.get("shapes"),
-                                                "dynamic_sweep_by_kind_of_hidden_call": ds.get("by_kind")})
+                                                "dynamic_sweep_by_kind_of_hidden_call": ds.get("by_kind"),
+                                                "shared_sweep_scenarios": ss.get("scenarios"), "shared_sweep_shapes": ss.get("shapes"),
+                                                "shared_sweep_callees": ss.get("callees"), "shared_sweep_path_pairs": ss.get("path_pairs"),
+                                                "shared_sweep_cycle_and_eval_kinds": ss.get("cycle_and_eval_kinds"),
+                                                "shared_sweep_by_shape": ss.get("by_shape")})
 
 
 def replay(path):
